@@ -403,6 +403,9 @@ def global_cases(tier):
     yield ("all", tuple(range(n)), 1)
     yield ("all", tuple(range(n)), 3)
     yield ("none", (), 1)
+    # no task is part of the report (every operation has include-in-reporting: false and no errors): the cluster-level metrics are all there is
+    yield ("all", tuple(range(n)), 2, "no-reported-task")
+    yield ("only", (0,), 1, "no-reported-task")
     for i in range(n):
         yield ("only", (i,), 2)
         yield ("all-but", tuple(j for j in range(n) if j != i), 2)
@@ -413,12 +416,19 @@ def global_cases(tier):
 
 
 def check_global(case, res):
-    label, present, nvals = case
+    label, present, nvals = case[:3]
+    unreported = len(case) > 3
     e = env()
     m = e["metrics"]
     import json
 
+    from esrally.track import track
+
     v = None
+    challenge = e["challenge"]
+    if unreported:
+        challenge = track.Challenge("c", default=True, schedule=[
+            track.Task(name, track.Operation(opname, optype, params={"include-in-reporting": False}, param_source="driver-test-param-source")) for name, opname, optype in TASKS])
     try:
         store = build_store({0: [(1.0, True, True)], 1: [(2.0, True, True)]})
         want, want_shards = {}, {}
@@ -439,8 +449,10 @@ def check_global(case, res):
             want[attr] = sum(vals) if agg == "sum" else (statistics.median(vals) if agg == "median" else int(statistics.median(vals)))
             if per_shard_attr:
                 want_shards[per_shard_attr] = {"min": min(shard_vals), "median": statistics.median(shard_vals), "max": max(shard_vals), "unit": "ms"}
-        race = m.Race("2.12.0", None, "verif", "verif-race", RACE_TS, "benchmark-only", {}, e["track"], {}, e["challenge"], "defaults", {}, {})
+        race = m.Race("2.12.0", None, "verif", "verif-race", RACE_TS, "benchmark-only", {}, e["track"], {}, challenge, "defaults", {}, {})
         gs = m.calculate_results(store, race)
+        if unreported and gs.op_metrics:
+            v = ("unreported-task-in-results", f"{[o.get('task') for o in gs.op_metrics]}")
         for _name, attr, _agg in GLOBAL_TABLE:
             got = getattr(gs, attr)
             if attr in want:
@@ -473,13 +485,13 @@ def check_global(case, res):
 
         v = ("raises", f"{type(ex).__name__}: {ex} @ {traceback.extract_tb(ex.__traceback__)[-1][:3]}")
     res.case(
-        case_repr={"cluster_level_metrics": label, "present": [GLOBAL_TABLE[i][0] for i in present][:4], "values_per_metric": nvals} if res.sample_now(13) else None,
-        nontrivial_key=("G", label, present, nvals) if present else None,
-        outcome_key=("G", v[0] if v else "ok", len(present), nvals),
+        case_repr={"cluster_level_metrics": label, "present": [GLOBAL_TABLE[i][0] for i in present][:4], "values_per_metric": nvals, "tasks_in_report": not unreported} if res.sample_now(13) else None,
+        nontrivial_key=("G", label, present, nvals, unreported) if present else None,
+        outcome_key=("G", v[0] if v else "ok", len(present), nvals, unreported),
     )
     if v:
-        res.violation(f"results:{v[0]}", f"cluster-level metrics {label} {[GLOBAL_TABLE[i][0] for i in present][:3]} x{nvals}: {v[1]}",
-                      {"global": [label, list(present), nvals]})
+        res.violation(f"results:{v[0]}" + (":no-reported-task" if unreported else ""), f"cluster-level metrics {label} {[GLOBAL_TABLE[i][0] for i in present][:3]} x{nvals}" + (", no task in the report" if unreported else "") + f": {v[1]}",
+                      {"global": [label, list(present), nvals] + (["no-reported-task"] if unreported else [])})
 
 
 def structure_cases(tier):
@@ -515,6 +527,18 @@ def check_structure(case, res):
         race.add_results(gs)
         fs = m.FileRaceStore(e["cfg"])
         fs.store_race(race)
+        # neighbours in the same races directory whose user-defined ids extend / are extended by this race's id, one older, one newer
+        for nid, nts in (("verif-race-10", RACE_TS + datetime.timedelta(days=1)), ("verif-rac", RACE_TS - datetime.timedelta(days=1))):
+            nb = m.Race("2.12.0", None, "verif", nid, nts, "benchmark-only", {}, e["track"], {}, ch, "defaults", {}, {})
+            nb.add_results(m.calculate_results(build_store({0: [(77.0, True, True)], 1: [(99.0, True, True)]}), nb))
+            # (every Rally process stores the race whose id its own configuration carries)
+            from esrally import config as _config
+
+            e["cfg"].add(_config.Scope.application, "system", "race.id", nid)
+            try:
+                fs.store_race(nb)
+            finally:
+                e["cfg"].add(_config.Scope.application, "system", "race.id", "verif-race")
         try:
             back = fs.find_by_race_id("verif-race")
         except Exception as ex:  # noqa
@@ -605,7 +629,7 @@ def replay(data):
     res = Result()
     if data.get("global"):
         g = data["global"]
-        check_global((g[0], tuple(g[1]), g[2]), res)
+        check_global((g[0], tuple(g[1]), g[2]) + tuple(g[3:]), res)
     elif data.get("structure"):
         check_structure(("structure", tuple(data["structure"][0]), data["structure"][1]), res)
     elif data.get("structured"):
